@@ -224,12 +224,29 @@ def _ext(ctx):
     index = ctx.index
     stdlib = set(sys.stdlib_module_names)
     declared = set()
-    for fn in ("requirements.txt", "setup.py"):
-        p = os.path.join(index.root, fn)
-        if os.path.isfile(p):
-            with open(p) as f:
-                txt = f.read().lower()
-            declared.update(re.findall(r"[a-z0-9_][a-z0-9_\-]+", txt))
+    req = os.path.join(index.root, "requirements.txt")
+    if os.path.isfile(req):
+        with open(req) as f:
+            for line in f:
+                line = line.split("#egg=")[-1] if "#egg=" in line else line.split("#")[0]
+                mt = re.match(r"\s*([A-Za-z0-9_.\-]+)", line)
+                if mt:
+                    declared.add(mt.group(1).lower().replace("_", "-"))
+    setup = os.path.join(index.root, "setup.py")
+    if os.path.isfile(setup):
+        with open(setup) as f:
+            try:
+                tree = ast.parse(f.read())
+            except SyntaxError:
+                tree = None
+        if tree is not None:
+            for n in ast.walk(tree):
+                if isinstance(n, ast.keyword) and n.arg in ("install_requires", "setup_requires"):
+                    for c in ast.walk(n.value):
+                        if isinstance(c, ast.Constant) and isinstance(c.value, str):
+                            mt = re.match(r"\s*([A-Za-z0-9_.\-]+)", c.value)
+                            if mt:
+                                declared.add(mt.group(1).lower().replace("_", "-"))
     dist_of = {"yaml": "pyyaml", "typing_extensions": "typing-extensions"}
     n = 0
     for name in index.nontest_modules():
@@ -250,7 +267,7 @@ def _ext(ctx):
                             continue
                         n += 1
                         dist = dist_of.get(r, r).lower()
-                        ok = guarded or dist in declared or dist.replace("_", "-") in declared
+                        ok = guarded or dist.replace("_", "-") in declared
                         ctx.ob(
                             "C18.ext",
                             m,
